@@ -36,9 +36,9 @@ pub fn spec_for(id: &str) -> Option<CheckSpec> {
   let spec = |property: &'static str, campaigns: Vec<Box<dyn Campaign>>, uses_r: bool| CheckSpec { property, level: "exploration", campaigns, assumptions: a_assumptions(uses_r), exhaustive_note: None };
   let b = |p: &'static str, s: SourceB, q: u64, t: u64| LoopCampaign::new(p, s, q, t);
   let bspec = |property: &'static str, campaigns: Vec<Box<dyn Campaign>>| CheckSpec { property, level: "exploration", campaigns, assumptions: b_assumptions(), exhaustive_note: None };
-  const QB: u64 = 800_000; const TB: u64 = 60_000_000;
-  const Q: u64 = 1_500_000; const QS: u64 = 400_000;
-  const T: u64 = 120_000_000; const TS: u64 = 20_000_000;
+  const QB: u64 = 800_000; const TB: u64 = 50_000_000;
+  const Q: u64 = 2_000_000; const QS: u64 = 400_000;
+  const T: u64 = 80_000_000; const TS: u64 = 10_000_000;
   Some(match id {
     "C01" => spec("C01", vec![Box::new(k("C01", Source::Random, Q, T).resets()), Box::new(k("C01", Source::Shipped, QS, TS).resets())], false),
     "C02" => spec("C02", vec![Box::new(k("C02", Source::Random, Q, T).resets()), Box::new(k("C02", Source::Shipped, QS, TS).resets())], true),
